@@ -93,6 +93,25 @@ void harness(void)
         all_destroyed_once();
         ASSERT(nd == 1 && lg[1].dealloc && lg[1].ptr == lg[0].ptr && lg[1].size == lg[0].size && lg[1].align == lg[0].align && lg[1].kind == 0, "C20: the memory is given back once with the parameters of the request");
     }
+#elif CASE == 8
+    uint64_t add = nondet_u8(), sa = nondet_u8(), sb = nondet_u8(), sc = nondet_u8(), al = (uint64_t)1 << (nondet_u8() & 3);
+    ASSUME(add <= 64 && sa >= 1 && sa <= 24 && sb >= 1 && sb <= 24 && sc >= 1 && sc <= 24);
+    uint64_t SZ = w_sizeof_jt(), AL = w_alignof_jt();
+    w_joint_alloc_seq(LEAF, add, sa, sb, sc, al);
+    ASSERT(nlog >= 1 && !lg[0].dealloc && lg[0].kind == 0 && lg[0].size == SZ + add && lg[0].align == AL, "C11: one upstream node of sizeof(T) + additional size, alignof(T)");
+    if (lg[0].ptr != 0) {
+        uint64_t obj = lg[0].ptr, lo = obj + SZ, hi = obj + SZ + add;
+        if (sa + sb + sc + 3 * (al - 1) <= add) ASSERT(!EXC, "C11: three pieces that fit even without reuse of the released one are all served");
+        if (sa + sb > add) ASSERT(EXC && exc_is(XK_OOFM), "C11: a request that does not fit the joint memory throws out_of_fixed_memory");
+        if (!EXC) {
+            ASSERT(piece_seen[0] == 2 && piece_seen[1] == 2, "pieces observed");
+            ASSERT(piece_p[0] >= lo && piece_p[0] + piece_n[0] <= hi && (piece_p[0] & (al - 1)) == 0, "C11: the piece allocated second lies inside the joint memory, aligned");
+            ASSERT(piece_p[1] >= lo && piece_p[1] + piece_n[1] <= hi && (piece_p[1] & (al - 1)) == 0, "C11: the piece allocated after a non-last release lies inside the joint memory, aligned");
+            ASSERT(piece_p[0] + piece_n[0] <= piece_p[1] || piece_p[1] + piece_n[1] <= piece_p[0], "C11: releasing a piece that is not the last allocation frees nothing: the still-live later piece and the next allocation are disjoint");
+        }
+        { int nd = 0, di = -1; for (int i = 0; i < LOGN; ++i) if (i < nlog && lg[i].dealloc) { nd++; di = i; }
+          ASSERT(nd == 1 && lg[di < 0 ? 0 : di].ptr == obj && lg[di < 0 ? 0 : di].size == SZ + add && lg[di < 0 ? 0 : di].align == AL && lg[di < 0 ? 0 : di].kind == 0, "C11: the block is released whole, once, with exactly the size and alignment it was allocated with"); }
+    }
 #elif CASE >= 4
     uint64_t add = nondet_u8(), n = nondet_u8(), m = nondet_u8(); ASSUME(add <= 64 && n <= NMAX && m <= 16);
 #if CASE == 7
